@@ -38,7 +38,7 @@ PROPS["C04"] = {
 }
 PROPS["C05"] = {
     "parts": [ENGINE],
-    "level_text": "Theorems C05_pre_cancelled (no callback, context error) and C05_no_new_work (after the first cancelling callback no exec attempt and no prep is started, and a run that is cut short ends in the context's error: the monitor refuses CPrep/CExec once cancelled and accepts a truncated visit only with a context-class outcome) for every oracle, table of full user nodes and flows, fuel; spec_C05 proved of the model and applied to the implementation; correspondence: cancellation before the run and from inside every callback of the fault-free path, cancel and deadline contexts (the error must match the context's own error, not merely some context error). The case files apply spec_C05x = spec_C05 and the clause 'a failed run reports a framework-class error only where the scenario has a cause for one (a flow without start node, a reference to an unknown node)'; that clause is not proved of the model in general - it is evaluated on the model's own observation in every case, and a false value there is reported as a defect of the check.",
+    "level_text": "Theorems C05_pre_cancelled (no callback, context error) and C05_no_new_work (after the first cancelling callback no exec attempt and no prep is started, and a run that is cut short ends in the context's error: the monitor refuses CPrep/CExec once cancelled and accepts a truncated visit only with a context-class outcome) for every oracle, table of full user nodes and flows, fuel; spec_C05 proved of the model and applied to the implementation; correspondence: cancellation before the run and from inside every callback of the fault-free path, cancel and deadline contexts (the error must match the context's own error, not merely some context error). C05_framework_error_has_cause: for every oracle that does not itself answer with a framework-class error, every table, depth and fuel, a failed run reports a framework-class error only if the table has a cause for one (a flow without start node, a reference to an unknown node) - so a run cut short by the context cannot come back with a fixed framework error; C05_specx_holds_of_model: the predicate the case files apply (spec_C05 and that clause) holds of the model's observation of every scenario.",
     "level_note": _T + " Cancellation arriving during a retry wait is C20.",
     "explanation": "monitor-based theorem; cancellation injected at every callback of generated flows",
     "assumptions": ["cancellation is issued from inside callbacks (deterministic); asynchronous cancellation during waits is C20"],
